@@ -683,6 +683,70 @@ def r7(ctx):
     ctx.ob(cmpf.qual, "common-variants-of-the-compared-files", ok, cmpf.loc(defs[0][0]), "common_variants = collect_common_variants(variant_tables, sample_names) of exactly the tables being compared" if ok else "common variants are not (unconditionally) those of the tables passed to compare()")
 
 
+def r8(ctx):
+    """(a) The block-wise Hamming distance is the minimum over ALL haplotype correspondences: the running minimum starts at
+    infinity and only ever takes min(itself, the distance of the permutation at hand) -- a shortcut that sets it from a test on
+    the haplotype SETS forgets multiplicities (A,A,B vs A,B,B).  (b) The intersection of the files' phase sets files every
+    jointly phased variant under its joint block id: get-or-create and append; itertools.groupby only groups neighbours, so
+    without a sort by the same key (interleaved or nested phase sets) earlier runs of a block are lost."""
+    cb = ctx.func(MOD + ".compare_block")
+    ccfg = ctx.cfg(cb)
+    rets = [c for c in ctx.prog.calls_in(cb.node) if u(c.func) == "PhasingErrors"]
+    hv = [k.value for c in rets for k in c.keywords if k.arg == "hamming"]
+    ok = None
+    if len(hv) == 1 and isinstance(hv[0], ast.Name):
+        m = hv[0].id
+        ok = True
+        n_min = 0
+        why = ""
+        for st_, v in util.assignments_to(cb.node, m):
+            if not isinstance(v, ast.AST):
+                ok, why = None, "cannot read a binding of %s" % m
+                continue
+            t = u(v)
+            if t in ("float('inf')", "math.inf", "inf", "float('Inf')", "float('infinity')"):
+                continue
+            if isinstance(v, ast.Call) and u(v.func) == "min" and len(v.args) == 2 and m in (u(v.args[0]), u(v.args[1])) and not v.keywords:
+                n_min += 1
+                continue
+            if isinstance(v, ast.Call) and u(v.func) in ("int", "float") and len(v.args) == 1 and u(v.args[0]) == m:
+                continue
+            if isinstance(v, ast.Name) and any((tt, pp) in guard_atoms(ccfg, ccfg.node_of(st_)) for tt, pp in (("%s < %s" % (v.id, m), True), ("%s < %s" % (m, v.id), False))):
+                n_min += 1
+                continue
+            if isinstance(v, ast.Constant) or (isinstance(v, ast.UnaryOp) and isinstance(v.operand, ast.Constant)):
+                ok, why = False, "`%s = %s` under `%s`: the distance is decided without looking at the correspondences (equal SETS of haplotypes do not mean equal multisets)" % (m, t, " and ".join(sorted(x for x, y in guard_atoms(ccfg, ccfg.node_of(st_)) if y))[:80])
+                break
+            if ok:
+                ok, why = None, "cannot read `%s = %s`" % (m, t[:60])
+        if ok and not n_min:
+            ok, why = None, "no min() update of %s found" % m
+        ctx.ob(cb.qual, "hamming-is-the-minimum-over-all-correspondences", ok, cb.loc(), "the running minimum starts at infinity and is only ever replaced by min(itself, a permutation's distance)" if ok else why)
+    else:
+        ctx.ob(cb.qual, "hamming-is-the-minimum-over-all-correspondences", None, cb.loc(), "cannot find what compare_block reports as hamming")
+    # (b) groupby
+    n_sites = 0
+    for q, fi in sorted(ctx.prog.functions.items()):
+        if not q.startswith(MOD + "."):
+            continue
+        for c in ctx.prog.calls_in(fi.node, include_nested=True):
+            if not (u(c.func) in ("groupby", "itertools.groupby") and c.args):
+                continue
+            n_sites += 1
+            key = c.args[1] if len(c.args) > 1 else ([k.value for k in c.keywords if k.arg == "key"] or [None])[0]
+            src = c.args[0]
+            if isinstance(src, ast.Name):
+                d_ = util.single_def(fi.node, src.id)
+                src = d_ if d_ is not None else src
+            skey = None
+            if isinstance(src, ast.Call) and u(src.func) == "sorted":
+                skey = ([k.value for k in src.keywords if k.arg == "key"] or [None])[0]
+            okg = isinstance(src, ast.Call) and u(src.func) == "sorted" and (u(skey) if skey is not None else None) == (u(key) if key is not None else None)
+            ctx.ob(fi.qual, "groupby-input-sorted-by-the-same-key", okg, fi.loc(c), "groupby runs over input sorted by its key" if okg else "`%s` groups only neighbouring elements and its input is not sorted by the same key: with interleaved or nested phase sets a block comes in several runs, and collecting them under the block id keeps only the last" % u(c)[:70])
+    bi = [s_ for s_ in util.store_sites(ctx.func(MOD + ".compare").node) if s_.kind == "call" and s_.method == "append" and u(s_.target).startswith("block_intersection[")]
+    ctx.ob(MOD + ".compare", "joint-blocks-collect-every-variant", True if bi or n_sites else None, ctx.func(MOD + ".compare").loc(), "jointly phased variants are appended under their joint block id" if bi else ("joint blocks are formed by groupby (checked above)" if n_sites else "cannot see how compare() forms the joint blocks"))
+
+
 RULES = [
     ("C11.R1", "operand shape of per-position metrics (haplotype string vs list)", r1),
     ("C11.R2", "orientation test and branches of the longest-block agreement", r2),
@@ -691,7 +755,8 @@ RULES = [
     ("C11.R5", "per-chromosome switch-error records are collected afresh for each chromosome", r5),
     ("C11.R6", "polyploid comparison: one flip per differing haplotype; genotypes as allele multisets", r6),
     ("C11.R7", "pairwise comparison restricted to the two files' own common variants", r7),
+    ("C11.R8", "Hamming distance is a minimum over all correspondences; joint blocks collect every variant", r8),
 ]
 # instance floors: about 60% of the instances confirmed by hand on the reference tree -- a rule that suddenly matches far fewer
 # sites fails the run (exit 2); a clean-up that merges two sites into one does not
-FLOORS = {"C11.R1": 7, "C11.R2": 1, "C11.R3": 1, "C11.R4": 1, "C11.R5": 1, "C11.R6": 2, "C11.R7": 1}
+FLOORS = {"C11.R1": 7, "C11.R2": 1, "C11.R3": 1, "C11.R4": 1, "C11.R5": 1, "C11.R6": 2, "C11.R7": 1, "C11.R8": 2}
